@@ -27,6 +27,8 @@ DOCS = {
     "empty": "{ }",
     "rec": "rec { a = 1; c = 2; }",
     "deep": "{ a.b.e = 1; c = 2; }",
+    # the body is a name bound in the let layer: the document mapping must follow the *current* binding
+    "scoped-ident": "let\n  u = { a = 1; c = 2; };\nin\nu",
 }
 SIMPLER = {
     "plain-ml": ["plain"], "attrpath2": ["attrpath"], "nested-ml": ["nested"], "scoped-attrpath": ["scoped", "attrpath"],
@@ -56,6 +58,7 @@ def ops(values):
         out.append(("sget", k))
         out.append(("sdel", k))
         out.append(("sset", k, 8))
+    out.append(("sset", "u", {"a": 5}))  # rebinding the name to another set
     return out
 
 
@@ -78,7 +81,45 @@ def show_op(op):
     return " ".join(str(x) for x in op)
 
 
+def _ident_body(text):
+    """`let … in NAME` where NAME is bound to a set literal in that let: -> (layer dict, NAME) or None"""
+    root = obs.cst(text)
+    if root.has_error:
+        return None
+    ch = [c for c in root.named_children if c.type != "comment"]
+    if len(ch) != 1 or ch[0].type != "let_expression":
+        return None
+    body = ch[0].child_by_field_name("body")
+    if body is None or body.type != "variable_expression":
+        return None
+    try:
+        layer = obs.plain(obs.decode_set(ch[0]))
+    except obs.Dup:
+        return None
+    return layer, body.text.decode()
+
+
+class RefModel(dict):
+    """dict model whose 'body' is whatever the scope currently binds `ref` to"""
+
+    def __getitem__(self, k):
+        if k == "body" and "ref" in self:
+            b = dict.__getitem__(self, "scope").get(dict.__getitem__(self, "ref"))
+            return b if isinstance(b, dict) else _NOBODY
+        return dict.__getitem__(self, k)
+
+
+class _NoBody(dict):
+    pass
+
+
+_NOBODY = _NoBody()
+
+
 def model_of(text):
+    ib = _ident_body(text)
+    if ib is not None:
+        return RefModel({"scope": ib[0], "outer": [], "ref": ib[1]})
     v = obs.attr_tree(text)
     if v.status != "ok":
         return None
@@ -92,10 +133,14 @@ def step_model(m, op):
     if kind in ("get", "set", "del"):
         d = m["body"]
         k = op[1]
+        if d is _NOBODY:
+            return ("raise", "nonmapping")
     elif kind in ("sget", "sset", "sdel"):
         d = m["scope"]
         k = op[1]
     else:
+        if m["body"] is _NOBODY:
+            return ("raise", "nonmapping")
         parent = m["body"].get(op[1])
         if not isinstance(parent, dict):
             return ("raise", "nonmapping")
@@ -133,7 +178,7 @@ def step_impl(src, op):
         if kind == "ndel":
             del src[op[1]][op[2]]
             return ("ok", None)
-        target = src._resolve_target_set()
+        target = _scope_owner(src)
         if kind == "sget":
             return ("ok", target.scope[op[1]])
         if kind == "sset":
@@ -145,6 +190,15 @@ def step_impl(src, op):
     except Exception as e:
         return ("raise", type(e).__name__, str(e)[:100])
     raise AssertionError(op)
+
+
+def _scope_owner(src):
+    """The expression whose `.scope` mapping is the innermost let layer of the document: the top-level
+    expression when the let was lifted onto it (docs/api.md "Working with scopes"), else the target set."""
+    top = src.expr
+    if getattr(top, "scope", None):
+        return top
+    return src._resolve_target_set()
 
 
 def as_tokens(val):
@@ -177,7 +231,7 @@ def mapping_view(src):
             body[k] = "<raises " + type(e).__name__ + ">"
     scope = {}
     try:
-        target = src._resolve_target_set()
+        target = _scope_owner(src)
         for k in SKEYS + ["w"]:
             try:
                 scope[k] = as_tokens(target.scope[k])
@@ -192,6 +246,10 @@ def mapping_view(src):
 
 def restrict(m):
     return {"body": {k: v for k, v in m["body"].items()}, "scope": dict(m["scope"])}
+
+
+def same_view(a, b):
+    return a == b
 
 
 def judge(doc_text, hist):
@@ -233,6 +291,10 @@ def judge(doc_text, hist):
     except Exception as e:
         findings.append(("rebuild-raises", f"{type(e).__name__}: {e}"))
         return None, None, findings
+    if m["body"] is _NOBODY:
+        # the name the body refers to is no longer bound to a set: the document has left the
+        # property's domain (no attribute set to map onto); not judged further, not expanded
+        return None, last_ok, findings
     tv = model_of(text)
     mv = mapping_view(src)
     want = restrict(m)
